@@ -824,7 +824,7 @@ Proof.
     split; [constructor|]. intros d x Hx. now destruct d.
   - cbn [emit_fast] in E.
     destruct (build j (concat segs)) as [sh|] eqn:Eb; [|discriminate].
-    destruct sh as [a b|es]; [discriminate|].
+    cbv zeta in E. set (es := edges_of sh) in *.
     destruct (nth_error (map (hd 0) names) j) as [nm|] eqn:En; [|discriminate].
     destruct (emit_fast build (map (hd 0) names) (S id) cs) as [[[ce' cn'] ci']|] eqn:Ee; [|discriminate].
     destruct (IH (S id) ce' cn' ci' Ee) as [L1 [L2 [results [blks [R [Ece [Z [F D]]]]]]]].
@@ -833,7 +833,7 @@ Proof.
     { rewrite nth_error_map in En. destruct (nth_error names j) as [l|] eqn:El; [|discriminate].
       inversion En. now rewrite (nth_error_nth _ _ _ El). }
     split; [rewrite !app_length, repeat_length; lia|]. split; [rewrite !app_length, !repeat_length; lia|].
-    exists ((j, Edges es) :: results), (zip3 es (repeat nm (length es)) (repeat id (length es)) :: blks).
+    exists ((j, sh) :: results), (zip3 es (repeat nm (length es)) (repeat id (length es)) :: blks).
     destruct (zip3_proj es (repeat nm (length es)) (repeat id (length es))) as [P1 [P2 P3]];
       try now rewrite !repeat_length.
     split; [|split; [|split; [|split]]].
